@@ -26,9 +26,11 @@ class Out:
 
 
 class Compiler:
-    def __init__(self, fn, hooks=None, enum_values=None, capture=()):
+    def __init__(self, fn, hooks=None, enum_values=None, capture=(), with_this=False):
         self.fn = fn
         self.capture = tuple(capture)
+        self.uses_this = False
+        self.with_this = with_this
         self.hooks = hooks or {}
         self.enum_values = enum_values or {}
         self.names = {}
@@ -63,6 +65,11 @@ class Compiler:
             raise NotCompilable('reference to %s' % x.get('n'))
         if 'c' in x and k in ('mem',):
             return repr(x['c'])
+        if k == 'this':
+            self.uses_this = True
+            return '_this'
+        if k == 'mem' and isinstance(x.get('b'), dict):
+            return '_mem(%s, %r)' % (self.expr(x['b']), x.get('n'))
         if k == 'icast':
             inner = self.expr(x['e'])
             if x.get('to') in ('bool', '_Bool'):
@@ -84,9 +91,9 @@ class Compiler:
             if op == '!':
                 return '(0 if (%s) else 1)' % self.expr(x['e'])
             if op == '-':
-                return '(-(%s))' % self.expr(x['e'])
+                return self._wrap('(-(%s))' % self.expr(x['e']), x)
             if op == '~':
-                return '(~(%s))' % self.expr(x['e'])
+                return self._wrap('(~(%s))' % self.expr(x['e']), x)
             if op == '+':
                 return self.expr(x['e'])
             raise NotCompilable('unary ' + op)
@@ -102,7 +109,7 @@ class Compiler:
             if op in _BIN:
                 if op in ('<', '>', '<=', '>=', '==', '!='):
                     return '(1 if ((%s) %s (%s)) else 0)' % (l, op, r)
-                return '((%s) %s (%s))' % (l, _BIN[op], r)
+                return self._wrap('((%s) %s (%s))' % (l, _BIN[op], r), x)
             raise NotCompilable('binary ' + op)
         if k == 'cond':
             return '((%s) if (%s) else (%s))' % (self.expr(x['a']), self.expr(x['c_']), self.expr(x['b']))
@@ -129,6 +136,16 @@ class Compiler:
             return self.expr(x['e'])
         raise NotCompilable('expression kind %s' % k)
 
+    @staticmethod
+    def _wrap(code, x, wk='rw', sk='rs'):
+        """C semantics of the result type: unsigned results wrap modulo 2^w; signed overflow is reported"""
+        w = x.get(wk)
+        if not w:
+            return code
+        if x.get(sk):
+            return '_sc(%s, %d)' % (code, w)
+        return '((%s) & %d)' % (code, (1 << w) - 1)
+
     def stmt(self, b, i, x, out, ind):
         k = x.get('k') if isinstance(x, dict) else None
         tgt = '_e[%d][%d]' % (b, i)
@@ -154,7 +171,10 @@ class Compiler:
             if op == '=':
                 out.append('%s%s = %s' % (ind, name, r))
             elif op[:-1] in _BIN:
-                out.append('%s%s = (%s) %s (%s)' % (ind, name, name, _BIN[op[:-1]], r))
+                val = self._wrap('((%s) %s (%s))' % (name, _BIN[op[:-1]], r), x)
+                if x.get('lw'):
+                    val = ('_s(%s, %d)' % (val, x['lw'])) if x.get('ls') else '((%s) & %d)' % (val, (1 << x['lw']) - 1)
+                out.append('%s%s = %s' % (ind, name, val))
             else:
                 raise NotCompilable('assignment ' + op)
             out.append('%s%s = %s' % (ind, tgt, name))
@@ -216,7 +236,7 @@ class Compiler:
 
     def compile(self):
         fn = self.fn
-        params = [self.var(p) for p in fn.params]
+        params = ['_this'] + [self.var(p) for p in fn.params] if self.with_this else [self.var(p) for p in fn.params]
         out = ['def _f(%s):' % ', '.join(params)]
         out.append('    _e = {%s}' % ', '.join('%d: [None] * %d' % (b, len(blk.elems) + 1) for b, blk in fn.blocks.items()))
         out.append('    _b = %d' % fn.entry)
@@ -261,7 +281,7 @@ class Compiler:
             if len(out) == body_start:
                 out.append(ind + 'pass')
         src = '\n'.join(out)
-        env = {'_h': self.hooks, '_s': _s, '_div': _div, '_mod': _mod, '_cp': _cp}
+        env = {'_h': self.hooks, '_s': _s, '_div': _div, '_mod': _mod, '_cp': _cp, '_mem': _mem, '_sc': _sc}
         try:
             exec(src, env)
         except SyntaxError as e:
@@ -274,6 +294,20 @@ class Compiler:
 def _s(v, w):
     v &= (1 << w) - 1
     return v - (1 << w) if v >> (w - 1) else v
+
+
+class SignedOverflow(Exception):
+    pass
+
+
+def _sc(v, w):
+    if not -(1 << (w - 1)) <= v < (1 << (w - 1)):
+        raise SignedOverflow('%d does not fit a signed %d-bit result' % (v, w))
+    return v
+
+
+def _mem(o, n):
+    return o[n] if isinstance(o, dict) else getattr(o, n)
 
 
 def _cp(v):
@@ -289,5 +323,9 @@ def _mod(a, b):
     return a - _div(a, b) * b
 
 
-def compile_fn(fn, hooks=None, capture=()):
-    return Compiler(fn, hooks, capture=capture).compile()
+def compile_fn(fn, hooks=None, capture=(), with_this=False):
+    c = Compiler(fn, hooks, capture=capture, with_this=with_this)
+    f = c.compile()
+    if c.uses_this and not with_this:
+        raise NotCompilable('member function compiled without an object model')
+    return f
